@@ -19,7 +19,7 @@ Local Open Scope string_scope.
 (* ------------------------------------------------------------------------------------ *)
 (** * Part 1 — keyword dictionaries, constructor chains *)
 
-(** Parameter values.  Only what the chains distinguish: ints, [None], the float
+(** Values of keyword arguments.  Only what the chains distinguish: ints, [None], the float
     [np.sqrt(2)], callables (by identity), other opaque objects (by identity) and the
     token for "the value [MMD._fit] cached in [self._expected_k_xx]". *)
 Inductive pv := VInt (z : Z) | VNone | VSqrt2 | VFun (id : Z) | VOther (id : Z) | VCacheKxx.
